@@ -70,6 +70,15 @@ type Destination struct {
 
 // New creates a destination object. Note that it still needs to be told to run via Run().
 func New(routeName string, matcher matcher.Matcher, addr, spoolDir string, spool, pickle bool, periodFlush, periodReConn time.Duration, connBufSize, ioBufSize, spoolBufSize int, spoolMaxBytesPerFile, spoolSyncEvery int64, spoolSyncPeriod, spoolSleep, unspoolSleep time.Duration) (*Destination, error) {
+	if periodFlush <= 0 || periodReConn <= 0 {
+		return nil, errors.New("destination: flush and reconn must be > 0")
+	}
+	if ioBufSize <= 0 || connBufSize < 0 {
+		return nil, errors.New("destination: iobuf must be > 0 and connbuf must be >= 0")
+	}
+	if spool && (spoolSyncPeriod <= 0 || spoolBufSize < 0 || spoolSleep < 0 || unspoolSleep < 0) {
+		return nil, errors.New("destination: spoolsyncperiod must be > 0 and spoolbuf, spoolsleep, unspoolsleep must be >= 0")
+	}
 	key := util.Key(routeName, addr)
 	addr, instance := addrInstanceSplit(addr)
 	dest := &Destination{
